@@ -16,7 +16,7 @@ TABLE = [
  ("S15-C14-alloc-sub-on-slot-class", "C14", "C14", "reservation demoted in place (slot class != tree class) and the slot's class has fewer allocated frames than the slot's free counter (saturating_sub)", "C14 quick: VIOLATION (seq: sum over classes of free+alloc != trees*TREE_FRAMES)", ""),
  ("S16-C15-steal-local-filter", "C15", "C15", "tree offline, some slot holds a reservation with >= 2^order frames, targeted allocation into the offline tree (Option::filter turns the tree filter into `any tree`)", "C15 quick: VIOLATION (seq: allocation returned a frame from an offline tree)", ""),
  ("S17-C16-search-best-reverse-key", "C16", "C16", "one search_best call with more than N imperfect candidates of different ratings (key wrapped in Reverse: keeps the lowest rated)", "C16 quick: VIOLATION (sortmon: access order vs reference)", ""),
- ("S18-C18-trees-metadata-lines", "C18", "C18", "partial last tree and frames/TREE_FRAMES a positive multiple of 16 (e.g. 32769..34815 frames): trees buffer one entry short", "C18 quick: VIOLATION (guard page / ASan / Miri)", ""),
+ ("S18-C18-trees-metadata-lines", "C18", "C18", "partial last tree and frames/TREE_FRAMES a positive multiple of 16 (e.g. 32769..34815 frames): trees buffer one entry short", "C18 quick: VIOLATION after strengthening (sizes engine: guard page / ASan in Trees::new)", "see meta.json"),
  ("S19-C01-split-marker-first", "C01b", "C01", "T1 put(order 0) into a whole huge frame delayed after the marker CAS before the row fill reaches row r; T2 frees another part; a targeted get into an unfilled row then returns a frame of the still-allocated rest", "C01 quick: VIOLATION after strengthening (sched split-race: GetAt returns a frame overlapping a held block); also C05 quick (crash after marker clear)", "missed by the first C01 plan: the split-race family was only part of C03/C05/C21 and had no targeted allocations into the huge frame being split; added: split-race in C01 with GetAt ops into that huge frame"),
  ("S20-C05-recover-counter-fastpath", "C05b", "C05", "two threads: A's put_small stopped between clearing the bit and incrementing the counter, B allocates that frame; crash: counter 0 with one zero bit; recovery trusts counter 0", "C05 quick: VIOLATION (crash points: free frame allocated after recovery)", ""),
  ("S21-C19-cores-half-slot", "C19", "C19", "class with count kind cores_half, even core count, call from the last core (slot == slot count)", "C19 quick: VIOLATION (classmon grid)", ""),
